@@ -93,7 +93,8 @@ def conversion_classes(ctx):
                 "zero": None,       # "slab": chunk-aligned zero background; "all": all-zero volume
                 "src_fault": None,  # environment: "remote503" (the server fails the first chunk request
                                     # once), "remove" / "truncate" (one source chunk file)
-                "prior": None}      # the destination already holds a conversion with ANOTHER info:
+                "prior": None,
+                "fractions": False}  # float32 source with x.25 / x.5 / x.75 and negative values      # the destination already holds a conversion with ANOTHER info:
                                     # [type, encoding, data type or "-", sharding or "keep"]
         base.update(kw)
         out.append(base)
@@ -344,6 +345,15 @@ def conversion_classes(ctx):
     add(src_dtype="uint32", dst_enc="compressed_segmentation", dst_bs="bs16/4/8", kind="supervoxel",
         src_type="segmentation", dst_type="segmentation", method="stride", shape=[70, 16, 16],
         voxel=[1.0, 1.0, 1.0], tgt=16)
+    # 26. float32 sources with FRACTIONAL values into unsigned integer destinations of the same and
+    #     of a larger item size: the documented conversion rounds to the nearest integer (x.75 -> x+1,
+    #     a tie may go either way) and saturates (negative -> 0)
+    fr = dict(src_dtype="float32", fractions=True, method="stride")
+    add(dst_dtype="uint32", **fr)
+    add(dst_dtype="uint64", **fr)
+    add(dst_dtype="uint32", dst_sh="s110", iso=True, **fr)
+    add(dst_dtype="uint64", **dict(fr, method="average"))
+    add(dst_dtype="uint32", remote=True, **fr)
     return out
 
 
@@ -376,6 +386,8 @@ def prog_of(rng, k):
     vol["nall"] = lv
     if k["rgb"]:
         vol["rgb"] = True
+    if k["fractions"]:
+        vol["fractions"] = True
     if k["zero"] == "slab":
         vol["zero_slab"] = 128 if max(shape[:3]) >= 140 else 16
     if k["zero"] == "all":
